@@ -71,7 +71,7 @@ inline bool refInv(RefM a, RefM& inv, LD& cond) {
 
 template <class E, int M> struct SmallCase {
     typedef typename ET<E>::P P; typedef std::complex<P> C; typedef typename CNT<E>::StdNumber SN;
-    enum { Cplx = ET<E>::Cplx, N = (M % 4) + 1, IsStd = std::is_same<E, typename CNT<E>::StdNumber>::value, Easy = (!ET<E>::Cplx || std::is_same<E, typename CNT<E>::StdNumber>::value) };
+    enum { Cplx = ET<E>::Cplx, N = (M % 4) + 1, IsStd = std::is_same<E, typename CNT<E>::StdNumber>::value, NegCplx = (ET<E>::Cplx && !std::is_same<E, typename CNT<E>::TWithoutNegator>::value), Easy = (!ET<E>::Cplx || std::is_same<E, typename CNT<E>::StdNumber>::value) };
     SmallCtx& x;
     explicit SmallCase(SmallCtx& x_) : x(x_) {}
     C rs() { P re = (P)x.r.sym(4.0); if (x.r.coin(0.3)) re = (P)x.r.integer(-3, 3); P im = Cplx ? (P)x.r.sym(4.0) : P(0); return C(re, im); }
@@ -102,7 +102,10 @@ template <class E, int M> struct SmallCase {
         chk("Vec.positionalTranspose", a.positionalTranspose(), [&] { RefM t(1, M); for (int i = 0; i < M; ++i) t(0, i) = ra(i, 0); return t; }(), exact(M));
         { RefM o = scaleRef(ra, sl, false, mag); chk("Vec*scalar", a * s, o, tolv(mag, 2)); chk("scalar*Vec", s * a, o, tolv(mag, 2)); }
         { RefM o = scaleRef(ra, sl, true, mag); chk("Vec/scalar", a / s, o, tolv(mag, 4)); }
-        { RefM o = refMul(refHerm(ra), rb, mag); chkS("~Vec*Vec", ~a * b, o.v[0], x.tolOf(mag[0], M + 1)); chkS("dot(Vec,Vec)", dot(a, b), o.v[0], x.tolOf(mag[0], M + 1)); }
+        // Products that pair negator<conjugate> with negator<complex> scalars (hermitian products of
+        // negator<complex> data, (-~A)*(-B) of complex data) hit the scalar-level finding that the scalar part
+        // keys pair by pair; they are not repeated here for every operation and size.
+        if constexpr (!NegCplx) { RefM o = refMul(refHerm(ra), rb, mag); chkS("~Vec*Vec", ~a * b, o.v[0], x.tolOf(mag[0], M + 1)); chkS("dot(Vec,Vec)", dot(a, b), o.v[0], x.tolOf(mag[0], M + 1)); }
         { RefM o = refMul(rr, rb, mag); chkS("Row*Vec", rw * b, o.v[0], x.tolOf(mag[0], M + 1)); }
         { RefM o = refMul(ra, rr, mag); chk("Vec*Row(outer)", a * rw, o, tolv(mag, 2)); }
         { RefM o = refMul(ra, refHerm(rb), mag); chk("outer(Vec,Vec)", outer(a, b), o, tolv(mag, 2)); }
@@ -137,12 +140,12 @@ template <class E, int M> struct SmallCase {
         chk("-Mat", -A, negRef(rA), exact(M * M)); chk("~Mat", ~A, refHerm(rA), exact(M * M)); chk("~Mat(rect)", ~R, refHerm(rR), exact(M * N));
         { RefM o = refMul(rA, rB, mag); chk("Mat*Mat", A * B, o, tolv(mag, M + 1)); }
         { RefM o = refMul(rA, rR, mag); chk("Mat*Mat(rect)", A * R, o, tolv(mag, M + 1)); }
-        { RefM o = refMul(refHerm(rR), rA, mag); chk("~Mat(rect)*Mat", ~R * A, o, tolv(mag, M + 1)); }
+        if constexpr (!NegCplx) { RefM o = refMul(refHerm(rR), rA, mag); chk("~Mat(rect)*Mat", ~R * A, o, tolv(mag, M + 1)); }
         { RefM o = refMul(rA, rb, mag); chk("Mat*Vec", A * b, o, tolv(mag, M + 1)); }
         { RefM o = refMul(rR, rvn, mag); chk("Mat(rect)*Vec", R * vn, o, tolv(mag, N + 1)); }
         { RefM o = refMul(rr, rA, mag); chk("Row*Mat", rw * A, o, tolv(mag, M + 1)); }
-        { RefM o = refMul(refHerm(ra), rA, mag); chk("~Vec*Mat", ~a * A, o, tolv(mag, M + 1)); }
-        { RefM o = refMul(negRef(refHerm(rA)), negRef(rB), mag); chk("(-~Mat)*(-Mat)", (-~A) * (-B), o, tolv(mag, M + 1)); }
+        if constexpr (!NegCplx) { RefM o = refMul(refHerm(ra), rA, mag); chk("~Vec*Mat", ~a * A, o, tolv(mag, M + 1)); }
+        if constexpr (!Cplx) { RefM o = refMul(negRef(refHerm(rA)), negRef(rB), mag); chk("(-~Mat)*(-Mat)", (-~A) * (-B), o, tolv(mag, M + 1)); }
         { RefM o = refMul(negRef(rA), refHerm(rB), mag); chk("(-Mat)*(~Mat)", (-A) * (~B), o, tolv(mag, M + 1)); }
         { RefM o = scaleRef(rA, sl, false, mag); chk("Mat*scalar", A * s, o, tolv(mag, 2)); chk("scalar*Mat", s * A, o, tolv(mag, 2)); o = scaleRef(rA, sl, true, mag); chk("Mat/scalar", A / s, o, tolv(mag, 4)); }
         { int i = x.r.integer(0, M - 1), j = x.r.integer(0, M - 1); RefM o(1, M), oc(M, 1); for (int k = 0; k < M; ++k) { o(0, k) = rA(i, k); oc(k, 0) = rA(k, j); }
@@ -176,7 +179,7 @@ template <class E, int M> struct SmallCase {
             } else x.c.skip("fixed-ill-conditioned");
         }
         // ---- SymMat (Hermitian for complex elements)
-        {
+        if constexpr (!NegCplx) {
             Mat<M, M, E> H; for (int i = 0; i < M; ++i) for (int j = 0; j < M; ++j) { C z; ET<E>::get(A(i, j), &z); C w; ET<E>::get(A(j, i), &w); C h = z + std::conj(w); if (i == j) h = C(h.real() + P(2 * M), 0); H(i, j) = ET<E>::make(&h); }
             const RefM rH = ref(H);
             // SymMat(Mat) and setFromSymmetric() are ill-formed for negator<> elements (compile time):
@@ -207,23 +210,24 @@ template <class E, int M> struct SmallCase {
     }
 };
 
-template <class E> inline void runSmallSizes(vh::Ctx& c, vh::Rng& r, int M) {
+template <class E, int M> inline void runSmallOne(vh::Ctx& c, vh::Rng& r) {
     SmallCtx x{c, r, ET<E>::name(), M, (LD)std::numeric_limits<typename ET<E>::P>::epsilon()};
     c.setPhase("fixed-size " + x.etype + " M=" + std::to_string(M));
-    switch (M) {
-    case 1: SmallCase<E, 1>(x).run(); break; case 2: SmallCase<E, 2>(x).run(); break; case 3: SmallCase<E, 3>(x).run(); break;
-    case 4: SmallCase<E, 4>(x).run(); break; case 5: SmallCase<E, 5>(x).run(); break; default: SmallCase<E, 6>(x).run(); break;
-    }
+    SmallCase<E, M>(x).run();
 }
+// <element type, size> cells (all sizes 1..6 for Real; a spread of sizes for the adaptor types to
+// keep the compile time of this single translation unit bounded)
 inline void runSmallCase(vh::Ctx& c, vh::Rng& r, long idx) {
-    int M = 1 + (int)(idx % 6); int t = (int)((idx / 6) % 6);
-    switch (t) {
-    case 0: runSmallSizes<double>(c, r, M); break;
-    case 1: runSmallSizes<std::complex<double>>(c, r, M); break;
-    case 2: runSmallSizes<negator<double>>(c, r, M); break;
-    case 3: runSmallSizes<conjugate<double>>(c, r, M); break;
-    case 4: runSmallSizes<float>(c, r, M); break;
-    default: runSmallSizes<negator<std::complex<double>>>(c, r, M); break;
+    typedef std::complex<double> Z;
+    switch ((int)(idx % 22)) {
+    case 0: runSmallOne<double, 1>(c, r); break;  case 1: runSmallOne<double, 2>(c, r); break;  case 2: runSmallOne<double, 3>(c, r); break;
+    case 3: runSmallOne<double, 4>(c, r); break;  case 4: runSmallOne<double, 5>(c, r); break;  case 5: runSmallOne<double, 6>(c, r); break;
+    case 6: runSmallOne<Z, 1>(c, r); break;       case 7: runSmallOne<Z, 2>(c, r); break;       case 8: runSmallOne<Z, 3>(c, r); break;
+    case 9: runSmallOne<Z, 4>(c, r); break;       case 10: runSmallOne<Z, 6>(c, r); break;
+    case 11: runSmallOne<negator<double>, 2>(c, r); break; case 12: runSmallOne<negator<double>, 3>(c, r); break; case 13: runSmallOne<negator<double>, 5>(c, r); break;
+    case 14: runSmallOne<conjugate<double>, 1>(c, r); break; case 15: runSmallOne<conjugate<double>, 3>(c, r); break; case 16: runSmallOne<conjugate<double>, 4>(c, r); break;
+    case 17: runSmallOne<float, 2>(c, r); break;  case 18: runSmallOne<float, 3>(c, r); break;  case 19: runSmallOne<float, 6>(c, r); break;
+    case 20: runSmallOne<negator<Z>, 2>(c, r); break; default: runSmallOne<negator<Z>, 3>(c, r); break;
     }
 }
 
